@@ -6,6 +6,7 @@ import XonshVerif.Model.Wire
 import XonshVerif.Model.Macro
 import XonshVerif.Model.Helpers
 import XonshVerif.Model.Pipeline
+import XonshVerif.Model.Lines
 import XonshVerif.Model.DriverTok
 import XonshVerif.Model.DriverPeg
 import XonshVerif.Generated.ParserIR
@@ -83,6 +84,16 @@ def handlePipeline (fs : List String) : String :=
     match Pipe.parseString E genPats (genTables start) (nat fuel) (decStr src) with
     | .tokenizerError e => s!"tokenizer-error {encErr e}"
     | .parsed o s1 => s!"{encOutcome o} pos={s1.pos} fetched={s1.fetched} peeks={s1.peeks} nexts={s1.nexts} resets={s1.resets} assumed={s1.assumed}"
+  | _ => "bad-request"
+
+/-- `getlines <file|string> <n1:n2:..|-> line*` : the texts `Tokenizer.get_lines` returns, joined by `;` -/
+def handleGetLines (fs : List String) : String :=
+  match fs with
+  | mode :: nums :: lines =>
+    let ns : List Nat := if nums = "-" then [] else (nums.splitOn ":").map nat
+    let ls := lines.map decStr
+    let res := if mode = "file" then Lines.getLinesFile ls ns else Lines.getLinesString ls ns
+    ";".intercalate (res.map encStr)
   | _ => "bad-request"
 
 end XV.Driver
